@@ -33,6 +33,10 @@ CHECKS.update({
  'C19': ('symbolic execution of the real split_path on symbolic paths; outcome compared with a reference splitter written from the statement',
          'Paths up to 6 (thorough 8) characters over {/, a, space, .}; minsegs 1..4; maxsegs None,0,min-1..min+2; rest_with_last both. split_by_commas is outside the claim (pyparsing on the value itself is not encodable).'),
 })
+CHECKS.update({
+ 'C10': ('symbolic execution of the real string_to_bytes / _extract_bytes: text characters symbolic (regex through the re model), the parsed number an opaque symbolic IEEE double; result compared bit-for-bit (z3 FloatingPoint) with an independent prefix table and base rule',
+         'Text = sign + <=3 (thorough 4) magnitude chars + <=2 prefix chars + <=3 unit chars, all symbolic; float(str) is opaque (decimal->double conversion outside the claim); |m| <= 1e200.'),
+})
 NA = {
 }
 def main():
